@@ -228,7 +228,7 @@ func c30Worker(w *WorkerCtx) {
 		v := Violation{Property: "C30", Oracle: "memory-bounded", Node: current.Engine, Engine: current.Engine, Key: "heap-explosion:" + current.Program,
 			Detail: fmt.Sprintf("program %s on %s: the process heap reached %.1f GB although a computation limit (%s %d) and a memory limit were set", current.Program, current.Engine, gb, current.Site, current.Budget)}
 		rf := &ReplayFile{Property: "C30", Oracle: v.Oracle, VerifSeed: int64(w.Seed), Tier: w.Tier, Kind: "c30", Custom: cu, Violation: &v}
-		path := WriteReplay(filepath.Join(verifDir(), "replay"), rf, sanitize("heap-"+current.Program+"-"+current.Engine))
+		path := WriteReplay(filepath.Join(outDir(), "replay"), rf, sanitize("heap-"+current.Program+"-"+current.Engine))
 		w.Emit(WorkResult{Kind: "item", Violations: []Violation{v}, Replay: path, Shape: "heap", NonTrivial: true})
 		os.Exit(0)
 	})
@@ -258,7 +258,7 @@ func c30Worker(w *WorkerCtx) {
 			v := Violation{Property: "C30", Oracle: "terminates", Node: tr.Engine, Engine: tr.Engine, Key: "hang:" + tr.Program,
 				Detail: fmt.Sprintf("program %s on %s (gauge %s#%d, depth %d, limit %d) did not end within 180 s of wall-clock time", tr.Program, tr.Engine, tr.Site, tr.Budget, tr.Depth, tr.Limit)}
 			rf := &ReplayFile{Property: "C30", Oracle: v.Oracle, VerifSeed: int64(w.Seed), Tier: w.Tier, Kind: "c30", Custom: cu, Violation: &v}
-			path := WriteReplay(filepath.Join(verifDir(), "replay"), rf, sanitize(fmt.Sprintf("hang-%s-%s", tr.Program, tr.Engine)))
+			path := WriteReplay(filepath.Join(outDir(), "replay"), rf, sanitize(fmt.Sprintf("hang-%s-%s", tr.Program, tr.Engine)))
 			w.Emit(WorkResult{Kind: "item", Seed: uint64(i), Violations: []Violation{v}, Replay: path, Shape: fmt.Sprint(tr), NonTrivial: true})
 			return
 		}
@@ -279,7 +279,7 @@ func c30Worker(w *WorkerCtx) {
 			if !isKnown && res.Replay == "" {
 				vc := v
 				rf := &ReplayFile{Property: "C30", Oracle: v.Oracle, VerifSeed: int64(w.Seed), Tier: w.Tier, Minimised: true, Kind: "c30", Custom: cu, Violation: &vc}
-				res.Replay = WriteReplay(filepath.Join(verifDir(), "replay"), rf, sanitize(fmt.Sprintf("%s-%s-%s%d-d%d-l%d", tr.Program, tr.Engine, tr.Site, tr.Budget, tr.Depth, tr.Limit)))
+				res.Replay = WriteReplay(filepath.Join(outDir(), "replay"), rf, sanitize(fmt.Sprintf("%s-%s-%s%d-d%d-l%d", tr.Program, tr.Engine, tr.Site, tr.Budget, tr.Depth, tr.Limit)))
 				res.Violations[0], res.Violations[len(res.Violations)-1] = res.Violations[len(res.Violations)-1], res.Violations[0]
 			}
 		}
